@@ -2,6 +2,7 @@
 //! need `mos-core` (parser, code generator, formatter, listing, binary writer).
 
 mod probe;
+mod textspace;
 mod props;
 mod util;
 
